@@ -105,9 +105,11 @@ PairValues == { <<"scalar", <<0>> >>, <<"strscalar", <<0>> >>, <<"none", <<>> >>
                 <<"seq", <<2, NULL>> >>, <<"seq", <<0, 1, 2>> >> }
 PairShapes == {Shape("pair", s, TRUE, v[1], v[2]) : s \in Spellings, v \in PairValues}
               \cup {Shape("pair", s, FALSE, v[1], v[2]) : s \in {"5", "None"}, v \in PairValues}
+\* a value list with members of different types, for the set operators only
+MixedShapes == {Shape("pair", s, TRUE, "mixed", <<0>>) : s \in {"in", "not_in", "IN", "not in"}}
 BareShapes == { Shape("bare", "", TRUE, "scalar", <<0>>), Shape("bare", "", TRUE, "strscalar", <<0>>), Shape("bare", "", TRUE, "none", <<>>),
                 Shape("bare", "", TRUE, "hetero", <<>>), Shape("bare", "", TRUE, "homog", <<>>) }
-Shapes == PairShapes \cup BareShapes
+Shapes == PairShapes \cup MixedShapes \cup BareShapes
 
 PFile1 == << R(0, 0) >>
 PFile2 == << R(0, 2), R(2, NULL), R(2, 2) >>
@@ -115,7 +117,7 @@ PLayouts == { <<>>, <<EmptyFile>>, <<PFile1>>, <<PFile1, PFile2>>, <<EmptyFile, 
 \* two-column filters: a's condition prunes every file of <<PFile1>> (a == 1) or none; b's condition is malformed
 PCondA == { Shape("pair", "==", TRUE, "scalar", <<1>>), Shape("pair", "==", TRUE, "scalar", <<0>>) }
 PCondB == { Shape("bare", "", TRUE, "none", <<>>), Shape("pair", "gte", TRUE, "scalar", <<0>>),
-            Shape("pair", "in", TRUE, "scalar", <<0>>), Shape("bare", "", TRUE, "hetero", <<>>),
+            Shape("pair", "in", TRUE, "scalar", <<0>>), Shape("pair", "in", TRUE, "mixed", <<0>>), Shape("bare", "", TRUE, "hetero", <<>>),
             Shape("bare", "", TRUE, "homog", <<>>), Shape("pair", "==", TRUE, "scalar", <<0>>) }
 
 (* ------------------------------- cases --------------------------------- *)
